@@ -20,7 +20,8 @@ ID = "C12"
 LEAN_MODULES = ["NiftyVerif.Core.Proto", "NiftyVerif.Model.LikelihoodRe", "NiftyVerif.Props.C12"]
 DRIVER = "Driver/C12.lean"
 OBLIGATIONS = ["NiftyVerif.C12." + t for t in (
-    "R_eq_Lh", "default_metric_eq_L_R",
+    "factor_iff_matrix", "R_eq_Lh", "default_metric_eq_L_R", "ofML_factor", "L_Lh_eq_M_ndvc",
+    "expected_pullback_vcgauss_complex_witness", "with_model_factor_star",
     "L_Lh_eq_M_gaussian", "L_Lh_eq_M_studentt", "L_Lh_eq_M_poisson", "L_Lh_eq_M_vcgauss", "L_Lh_eq_M_vcstudt",
     "categorical_factor", "softmax_group_sum", "L_Lh_eq_M_categorical", "categorical_global_sum_defect",
     "L_is_pullback_gaussian", "L_is_pullback_studentt", "L_is_pullback_poisson",
@@ -629,14 +630,14 @@ def run(ctx):
     ctx.extra["corpus_cases"] = len(cases)
     # every implementation first (targeted stream), then free generation, then compositions
     for k in G.KINDS:
-        for _ in range(ctx.n(3, 30)):
+        for _ in range(ctx.n(3, 15)):
             cases.append(gen_plain(rng, k))
-    for _ in range(ctx.n(20, 300)):
+    for _ in range(ctx.n(20, 150)):
         cases.append(gen_plain(rng))
-    for _ in range(ctx.n(30, 400)):
+    for _ in range(ctx.n(30, 250)):
         cases.append(gen_composed(rng))
     # JAX work in forked workers (forked before this process imports jax)
-    nw = int(os.environ.get("C12_WORKERS", "4"))
+    nw = int(os.environ.get("C12_WORKERS", "4" if ctx.quick else "6"))
     with mp.get_context("fork").Pool(nw, initializer=_silence) as pool:
         st = pool.apply(_selftest, (0,))
         results = pool.map(_work, cases, chunksize=4)
